@@ -200,7 +200,7 @@ pub fn render(p: &Program, deco: u64, spacing: u64, o: &Opts) -> Rendered {
     let mut deco_before: Vec<Deco> = vec![Deco::None; n + 1];
     let is_stmt_start = |i: usize| mark_at_tok.get(&i).is_some_and(|m| matches!(m.kind, 'S' | 'D'));
     let is_marked = |i: usize| mark_at_tok.get(&i).is_some_and(|m| matches!(m.kind, 'S' | 'D' | 'C'));
-    let line_comments = ["// c", "//c", "// Comment With Words", "//--------------------", "/// Doc", "//X  ", "// é", "// TODO: End Begin"];
+    let line_comments = ["// c", "//c", "// Comment With Words", "//--------------------", "/// Doc", "//X  ", "// é", "// TODO: End Begin", "///--------------------", "///==========", "///x  "];
     let block_comments = ["{c}", "(* C *)", "{ A Longer Block Comment }", "{}", "{Internal State}"];
     for i in 1..n {
         let mut r = gap_rng(deco, i, 1);
